@@ -4,7 +4,10 @@
 set -e
 n=$1; shift
 cd /verif
-git merge --no-edit wip-$n || { sed -i '/^<<<<<<< /d; /^=======$/d; /^>>>>>>> /d' KNOWN_FINDINGS.txt; git add -A; git commit -qm "Merge wip-$n"; }
+git merge --no-edit wip-$n || {
+  others=$(git diff --name-only --diff-filter=U | grep -v '^KNOWN_FINDINGS.txt$' || true)
+  if [ -n "$others" ]; then echo "MERGE CONFLICT in: $others  (resolve by hand, then commit)"; exit 1; fi
+  sed -i '/^<<<<<<< /d; /^=======$/d; /^>>>>>>> /d' KNOWN_FINDINGS.txt; git add -A; git commit -qm "Merge wip-$n"; }
 base=$(git -C /repo merge-base main fix-$n)
 commits=$(git -C /repo rev-list --reverse $base..fix-$n)
 for c in $commits; do
